@@ -428,6 +428,9 @@ func propC20(c *Ctx) {
 	rlc := c.Rule("loop-cover", "every iteration of a container arm's element loop stores the converted element or returns an error: no element is skipped", 4)
 	ruleLoopCover(c, rlc)
 
+	rcn := c.Rule("conv-nil", "every registered converter for a pointer type tests the pointer for nil before dereferencing it", 1)
+	ruleConvNil(c, rcn)
+
 	// ---- errors ----------------------------------------------------------------------------
 	re := c.Rule("errors", "the default arm of ToObject and ToObjectAlt reports an error for unsupported types", 2)
 	for _, cf := range []*convFunc{toObj, toAlt} {
